@@ -5,6 +5,8 @@ usage: seedeval.py <dir with patch.diff demo.py meta.json> <seed id> [--tests] [
    (optionally) the test files named in meta.json still pass with the patch;
 2. git -C /repo apply patch; run ./check for the property (and extra ones); git -C /repo checkout -- . straight afterwards;
 3. copy into /verif/seeded/<id>/ with what was run and what the checks said."""
+import os as _os
+_os.environ.setdefault('PYVC_EVIDENCE_DIR', '/tmp/pyvc_evidence_scratch')
 import json, os, shutil, subprocess, sys, tempfile, time
 
 src, sid = sys.argv[1], sys.argv[2]
